@@ -166,7 +166,7 @@ theorem C02_graph (outer : Scopes) (ver : Option Int) (g : GraphP) (h : wfGraph 
 /-- non-vacuity: a graph with an input, an initializer that is also an input, an initializer with
 value_info, a quantization annotation, metadata, and an `If`-like node whose `then_branch` subgraph
 captures the outer value `x`, uses an outer initializer, carries a reference attribute and a
-multi-device configuration, and returns an outer value. -/
+multi-device configuration, returns an outer value and passes its own input `p` through. -/
 def exampleGraph : GraphP :=
   .mk "main" "doc"
     [ .mk ["x", "w", ""] ["y", ""] "n0" "If" "ai.onnx" "" "" 
@@ -176,7 +176,9 @@ def exampleGraph : GraphP :=
                   [.ref "alpha" "" "alpha_outer" 1, .ints "axes" "" [0, -1]]
                   [⟨"k", "v"⟩]
                   [⟨"cfg0", [⟨"x", [0, 1], [⟨0, [0, 1]⟩], [⟨0, [⟨.value 2, 2⟩]⟩]⟩], some 1⟩] ]
-              [] [] [⟨"t", .tensor (some 1) none "", "", []⟩, ⟨"x", .unset "", "", []⟩] [] [] []),
+              [] [⟨"p", .tensor (some 9) (some []) "", "", [⟨"m", "1"⟩]⟩]
+              [⟨"t", .tensor (some 1) none "", "", []⟩, ⟨"x", .unset "", "", []⟩,
+               ⟨"p", .tensor (some 9) (some []) "", "", [⟨"m", "1"⟩]⟩] [] [] []),
           .int "flag" "" 1 ]
         [⟨"b", "2"⟩, ⟨"a", "1"⟩] [] ]
     [ { emptyTensorP with name := "w", dataType := 1, dims := [2], floatData := [0, 1065353216] },
